@@ -231,6 +231,14 @@ theorem advance_position (c : Cyc) (hlt : c.first < c.second) (n : Int) :
     c.advance n = .ok { c with it := c.first + Spec.cycOffset (c.second - c.first) (c.it - c.first) n } :=
   Cyc.advance_eq c n hlt
 
+/-- **whole histories**: after any sequence of `++`, `--`, `+= n`, `-= n` the iterator is inside its boundary, the boundary
+is unchanged, and the position is the start offset plus the net displacement, modulo the boundary length -/
+theorem history_position (c : Cyc) (h : c.Inside) (ops : List CycOp) :
+    ∃ c', c.run ops = .ok c' ∧ c'.Inside ∧ c'.first = c.first ∧ c'.second = c.second ∧
+      c'.it = c.first + Spec.cycOffset (c.second - c.first) (c.it - c.first) (Spec.cycNet ops) := by
+  have hlt : c.first < c.second := by have := h.1; have := h.2; omega
+  exact ⟨_, Cyc.run_eq c h ops, Cyc.atOffset_inside c _ hlt, rfl, rfl, rfl⟩
+
 /-- `--` undoes `++` and vice versa -/
 theorem decrement_increment (c : Cyc) (h : c.Inside) : c.increment.decrement = c ∧ c.decrement.increment = c := by
   obtain ⟨h1, h2⟩ := h
